@@ -55,6 +55,7 @@ def run(tier, seed, t0):
         thread_bes = ["spqlios-fma", "nayuki-portable", "fftw"]
     for be in (vbuild.BACKENDS if thorough else ["spqlios-fma", "nayuki-portable", "fftw"]):
         jobs.append(Job("asan-allocators-%s" % be, "drv_c16", "asan", be, ["--mode", "allocators", "--reps", 6 if thorough else 2, "--seed", seed], timeout=3600))
+    jobs.append(Job("optim-allocators", "drv_c16", "optim", "spqlios-fma", ["--mode", "allocators", "--reps", 12 if thorough else 4, "--seed", seed + 1], timeout=3600, meta={"leaks": False}))
     jobs.append(Job("memcheck-allocators", "drv_c16", "vg", "spqlios-avx", ["--mode", "allocators", "--reps", 1, "--seed", seed], tool="memcheck", timeout=7200))
     jobs.append(Job("asand-allocators", "drv_c16", "asand", "nayuki-avx", ["--mode", "allocators", "--reps", 1, "--seed", seed], timeout=7200))
     jobs.append(Job("asan-iokinds", "drv_c16", "asan", "spqlios-fma", ["--mode", "iokinds", "--reps", 12 if thorough else 4, "--seed", seed], timeout=3600))
